@@ -568,9 +568,9 @@ func (m *Monitor) respAllocate(r *mReq, msg *stun.Message, ok bool, code int, I 
 			m.v([]string{"C19"}, "retry-not-idempotent", kv("what", "error", "code", itoa(code)),
 				"retransmitted Allocate (transaction id of the live allocation of %s) answered %d instead of the same success", r.Client, code)
 		}
-		if def != nil && r.Auth > 0 && def.TID != r.TID && code != 437 && code != 401 && code != 438 && code != 420 && code != 400 {
-			// (420 and 400 reject the message itself - unknown comprehension-required or
-			// malformed attributes - before the TURN rules are consulted)
+		if def != nil && r.Auth > 0 && def.TID != r.TID && code != 437 && code != 401 && code != 438 && code != 420 {
+			// (420 rejects the message at the STUN layer - an unknown comprehension-required
+			// attribute, RFC 5389 7.3.1 - before the TURN rules are consulted)
 			m.v([]string{"C19", "C04"}, "second-allocate-not-437", kv("code", itoa(code)),
 				"Allocate on a 5-tuple with a live allocation answered %d", code)
 		}
